@@ -11,6 +11,9 @@ Rules are phrased over this canonical form so that behaviour-preserving respelli
  N5  a temporary with exactly one binding and one use, the use sitting at the head of the very next statement, is inlined
      (`c = f(x); if c:` -> `if f(x):`)
  N9  `a, b = x, y` -> `a = x; b = y`;   N10  `X if X else Y` -> `X or Y` for a plain name/attribute chain X
+ N13 `any(f(v) for v in (A, B))` -> `f(A) or f(B)` (all -> and);  N14 `if T: return False; return E` -> `return not T and E`,
+     `if T: return True; return E` -> `return T or E`
+ N12 in a loop body `if c: continue` followed by REST -> `if not c: REST`
  N11 `for v in (A, B): BODY` over a short display of names/literals is unrolled
  N8  a private or ALL_CAPS module-level name bound once to a literal is replaced by that literal where it is read
  N6  `v = []` directly followed by `for t in xs: [if c:] v.append(e)` -> `v = [e for t in xs if c]`
@@ -57,6 +60,21 @@ class _Norm(ast.NodeTransformer):
             return ast.copy_location(ast.Compare(n.comparators[0], n.ops, [n.left]), n)
         return n
 
+    # ---- N13 -----------------------------------------------------------------------------------
+    def visit_Call(self, n: ast.Call):
+        self.generic_visit(n)
+        if (isinstance(n.func, ast.Name) and n.func.id in ('any', 'all') and len(n.args) == 1 and not n.keywords
+                and isinstance(n.args[0], (ast.GeneratorExp, ast.ListComp)) and len(n.args[0].generators) == 1):
+            g = n.args[0].generators[0]
+            if (isinstance(g.target, ast.Name) and isinstance(g.iter, (ast.Tuple, ast.List)) and 0 < len(g.iter.elts) <= 8
+                    and not g.ifs and all(isinstance(x, ast.Constant) or _is_chain(x) for x in g.iter.elts)):
+                import copy
+                vals = [_subst(copy.deepcopy(n.args[0].elt), {g.target.id: el}) for el in g.iter.elts]
+                if len(vals) == 1:
+                    return ast.copy_location(vals[0], n)
+                return ast.copy_location(ast.BoolOp(ast.Or() if n.func.id == 'any' else ast.And(), vals), n)
+        return n
+
     # ---- N3 ------------------------------------------------------------------------------------
     @staticmethod
     def _positive(test: ast.expr):
@@ -88,6 +106,26 @@ class _Norm(ast.NodeTransformer):
         return n
 
     # ---- N1 ------------------------------------------------------------------------------------
+    @staticmethod
+    def _continue_guards(body):
+        """N12: in a loop body, `if c: continue` followed by REST  ->  `if not c: REST`"""
+        for i, s in enumerate(body):
+            if isinstance(s, ast.If) and not s.orelse and len(s.body) == 1 and isinstance(s.body[0], ast.Continue) and i + 1 < len(body):
+                rest = _Norm._continue_guards(body[i + 1:])
+                neg = ast.copy_location(ast.UnaryOp(ast.Not(), s.test), s.test)
+                return body[:i] + [ast.copy_location(ast.If(neg, rest, []), s)]
+        return body
+
+    def visit_For(self, n: ast.For):
+        n.body = self._continue_guards(n.body)
+        self.generic_visit(n)
+        return n
+
+    def visit_While(self, n: ast.While):
+        n.body = self._continue_guards(n.body)
+        self.generic_visit(n)
+        return n
+
     def _visit_fn(self, n):
         self.fn_stack.append(n)
         self.generic_visit(n)
@@ -112,6 +150,7 @@ class _Norm(ast.NodeTransformer):
     def _fold(self, fn, stmts):
         out: list = []
         i = 0
+        stmts = self._boolean_returns(stmts)
         stmts = self._split_tuple_assignments(stmts)
         stmts = self._loops_to_comprehensions(fn, stmts)
         while i < len(stmts):
@@ -136,6 +175,31 @@ class _Norm(ast.NodeTransformer):
                         continue
             out.append(s)
             i += 1
+        return out
+
+    @staticmethod
+    def _boolean_returns(stmts):
+        """N14: `if T: return False` directly followed by `return E`  ->  `return (not T) and E`;
+        `if T: return True` directly followed by `return E`  ->  `return T or E`   (E not a constant)"""
+        out = list(stmts)
+        changed = True
+        while changed:
+            changed = False
+            for i in range(len(out) - 1):
+                s, nx = out[i], out[i + 1]
+                if (isinstance(s, ast.If) and not s.orelse and len(s.body) == 1 and isinstance(s.body[0], ast.Return)
+                        and isinstance(s.body[0].value, ast.Constant) and isinstance(s.body[0].value.value, bool)
+                        and isinstance(nx, ast.Return) and nx.value is not None and not isinstance(nx.value, ast.Constant)):
+                    if s.body[0].value.value is False:
+                        t = s.test.operand if isinstance(s.test, ast.UnaryOp) and isinstance(s.test.op, ast.Not) else \
+                            ast.copy_location(ast.UnaryOp(ast.Not(), s.test), s.test)
+                        t = _Norm().visit(t)
+                        new = ast.BoolOp(ast.And(), [t, nx.value])
+                    else:
+                        new = ast.BoolOp(ast.Or(), [s.test, nx.value])
+                    out[i:i + 2] = [ast.copy_location(ast.Return(ast.copy_location(new, s)), s)]
+                    changed = True
+                    break
         return out
 
     @staticmethod
@@ -392,6 +456,9 @@ def unroll_display_loops(tree: ast.Module) -> ast.Module:
 
 def normalize(tree: ast.Module) -> ast.Module:
     tree = propagate_module_constants(tree)
+    tree = unroll_display_loops(tree)
+    tree = _Norm().visit(tree)
+    # a second pass: folding temporaries (N5) and boolean returns (N14) exposes new instances of the expression-level rewrites
     tree = unroll_display_loops(tree)
     tree = _Norm().visit(tree)
     ast.fix_missing_locations(tree)
